@@ -8,7 +8,8 @@ import sheetgen
 ID = "C05"
 GEN = ["Statics"]
 THEOREMS = ["C05_statics_closed", "C05_classes", "C05_mutators_closed", "C05_scope_shape",
-            "C05_interleaving_partial", "C05_history_independent_partial"]
+            "C05_interleaving_partial", "C05_history_independent_partial",
+            "C05_call_sites_closed", "C05_call_site_classes", "C05_builtins_never_written_partial", "C05_guard_needed"]
 COQ_HEADER = "From Coq Require Import List ZArith.\nFrom RV Require Import Run.C05.\nImport ListNotations."
 RUN_EXPR = "Run.C05.run"
 RULE = ("histories of 1..50 compilations in ONE process over generated stylesheets (valid and failing) and isolation probes "
